@@ -269,12 +269,16 @@ static void run_ops(const Script& sc, const std::vector<std::string>& binding) {
         }
         IRunner* r = ex.runners[op.p];
         std::string P = "\"p\":" + std::to_string(op.p);
-        const bool observing = op.k == "T" || op.k == "CT" || op.k == "R" || op.k == "C" || op.k == "X" ||
+        const bool observing = op.k == "T" || op.k == "CT" || op.k == "R" || op.k == "C" || op.k == "X" || op.k == "SO" || op.k == "SL" ||
                                op.k == "L" || op.k == "RT" || op.k == "A" || op.k == "VN" || op.k == "VD" ||
                                op.k == "VG" || op.k == "VC";
         if (observing && !ex.fresh[op.p]) {
             // legal use only: nothing is observed between a catalog change (or a failed update) and the next update
             emit("{\"e\":\"skip\"," + P + "}");
+            continue;
+        }
+        if ((op.k == "T" || op.k == "CT" || op.k == "RT" || op.k == "R" || op.k == "C" || op.k == "X") && !r->callable(op.a[0])) {
+            emit("{\"e\":\"sskip\"," + P + ",\"m\":" + std::to_string(op.a[0]) + "}");
             continue;
         }
         if (!observing && op.k != "u" && op.k != "h" && op.k != "N" && op.k != "VX") {
@@ -399,6 +403,20 @@ static void run_ops(const Script& sc, const std::vector<std::string>& binding) {
                 emit(std::string("{\"e\":\"resolve\",") + P + ",\"m\":" + std::to_string(m) + ",\"t\":" +
                      jlist(t) + ",\"o\":" + std::to_string(cr.o) + "}");
             }
+        } else if (op.k == "SO") {
+            emit("{\"e\":\"offsets\"," + P + "," + r->write_offsets() + "}");
+        } else if (op.k == "SL") {
+            // SL m which idx delta   (which = -1: exactly what the generator wrote)
+            std::string js;
+            if (op.a[1] >= 0 && !r->checked()) {
+                continue; // offsets other than the generated ones are only tried under a checked policy
+            }
+            if (!r->load_offsets(op.a[0], op.a[1], op.a[2], op.a[3], js)) {
+                emit("{\"e\":\"skip\"," + P + ",\"why\":\"no generated offsets for this method\"}");
+                continue;
+            }
+            emit("{\"e\":\"sload\"," + P + ",\"m\":" + std::to_string(op.a[0]) + "," + js + ",\"chk\":" +
+                 (r->checked() ? "true" : "false") + "}");
         } else if (op.k == "N") {
             bool ok = r->map_node(op.a[0], op.a[1]);
             emit("{\"e\":\"node\"," + P + ",\"k\":" + std::to_string(op.a[0]) + ",\"c\":" + std::to_string(op.a[1]) +
@@ -577,7 +595,7 @@ int main(int argc, char** argv) {
             std::fflush(out);
             pid_t pid = fork();
             if (pid == 0) {
-                alarm(120);
+                alarm(20);
                 run_ops(sc, b);
                 _exit(0);
             }
